@@ -169,6 +169,35 @@ def nested_n2(rng):
     return a
 
 
+def former_stale(rng):
+    """directed family: the shapes of the repaired class stale_recipe (fix ee9caf1) - a multiplied branch inside
+    an open branch that (0) already contains a closed branch on an earlier anchor, (1) stands behind a sibling
+    branch with a nested branch, (2) stands behind a multiplied sibling branch; all inside 1-2 open branches"""
+    name = lambda: G.rand_name(rng, rng.random() < 0.3)
+    nd = lambda: G.item(name(), m=(G.rand_count(rng) if rng.random() < 0.2 else None))
+    chain = lambda lo, hi: [nd() for _ in range(rng.randint(lo, hi))]
+    mbranch = lambda: G.branch(chain(1, 2), m=G.rand_count(rng, hi=3))
+    kind = rng.randint(0, 2)
+    if kind == 0:
+        a1 = G.item(name(), br=[G.branch(chain(1, 2))])
+        a2 = G.item(name(), br=[mbranch()])
+        inner = [a1] + chain(0, 1) + [a2] + chain(0, 1)
+    elif kind == 1:
+        b = G.item(name(), br=[G.branch(chain(1, 2))])
+        a = G.item(name(), br=[G.branch([b] + chain(0, 1)), mbranch()])
+        inner = chain(0, 1) + [a] + chain(0, 1)
+    else:
+        a = G.item(name(), br=[mbranch(), mbranch()] + ([G.branch(chain(1, 1))] if rng.random() < 0.3 else []))
+        inner = chain(0, 1) + [a] + chain(0, 1)
+    top = G.item(name(), br=[G.branch(inner)])
+    if rng.random() < 0.3:
+        top = G.item(name(), br=[G.branch(chain(0, 1) + [top] + chain(0, 1))])
+    a = chain(0, 1) + [top] + chain(0, 1)
+    G.place_symbols(rng, a, 0.25)
+    assert G.wf(a) is None, G.print_ast(a)
+    return a
+
+
 def case_of(a, braces=True, mode='random'):
     return {'mode': mode, 'braces': braces, 'ast': a, 'short': G.print_ast(a, braces),
             'long': G.print_ast(G.expand(a), braces), 'judge': True}
@@ -222,6 +251,9 @@ class C05(common.Prop):
             if r < 0.12:
                 a = nested_n2(rng)
                 mode = 'nested-in-doubled-branch'
+            elif r < 0.22:
+                a = former_stale(rng)
+                mode = 'former-stale-recipe'
             elif r < 0.30:
                 a = G.rand_ast(rng, size=size + 2, p_nmult=0.4)
                 mode = 'node-mult'
